@@ -36,6 +36,7 @@ RULE = (
     "the refusal monitor)"
 )
 REQUIRED = {
+    "non_logistic_models_refused": 3,
     "postcond_random": 100,
     "postcond_table": 60,
     "refusal_judged": 100,
@@ -732,6 +733,40 @@ def run_shard(spec, ctx):
     ctx.violation = violation
     max_rows = int(spec.get("max_rows", 500))
     sink = io.StringIO()
+
+    # -- the documented requirement on the model itself: only a logistic model can be simulated; every other kind (those derived from the
+    # logistic class included) is refused with an algorithm-input error before anything is generated
+    if str(spec.get("name", "")).endswith("0") or spec.get("k", 0) == 0:
+        try:
+            from vf import gen as _gen
+
+            for kind_, dim_, src_, noise_ in (("joint", 2, 1, None), ("linear", 2, 1, "gaussian-diagonal"), ("shared_speed_logistic", 3, 1, None), ("joint", 1, 0, None)):
+                rr = ctx.rng("non-logistic", kind_, dim_)
+                try:
+                    m_, ds_, _st, _df = _gen.ready_state(rr, kind_, dim_, src_, noise_, n_ind=6)
+                    m_._is_initialized = True
+                except Exception as e:
+                    ctx.note(f"non_logistic_setup_{kind_}", repr(e)[:160])
+                    continue
+                vp_ = {"patient_number": 3, "visit_type": "random", "first_visit_mean": 0.0, "first_visit_std": 0.4, "time_follow_up_mean": 4,
+                       "time_follow_up_std": 0.5, "distance_visit_mean": 1.0, "distance_visit_std": 0.2}
+                np.random.seed(12345)
+                before_ = np.random.get_state()
+                ctx.evaluated()
+                case_ = {"index": -1, "model_kind": kind_, "dimension": dim_, "sources": src_}
+                try:
+                    with contextlib.redirect_stdout(sink):
+                        m_.simulate(algorithm="simulate", features=list(m_.features), visit_parameters=vp_, seed=7)
+                    violation("simulate/non-logistic-model-accepted", f"a {kind_} model was simulated (documented: logistic models only)", case_)
+                except LeaspyAlgoInputError:
+                    ctx.count("non_logistic_models_refused")
+                    if not _rng_untouched(before_, 7):
+                        violation("simulate/refusal/after-generation", f"the refusal of a {kind_} model came after random numbers had been drawn", case_)
+                except Exception as e:
+                    violation("simulate/refusal/wrong-exception-for-model-kind", f"a {kind_} model is refused with {type(e).__name__} ({str(e)[:100]}) instead of an "
+                              "algorithm-input error raised up front", case_)
+        except Exception as e:
+            ctx.note("non_logistic_block_skipped", repr(e)[:200])
 
     for i in ctx.cases(spec["n"]):
         r = ctx.rng("c18", i)
